@@ -32,7 +32,7 @@ TRUST_COMMON = [
 # not_decided (clauses of the property out of reach of this family), technique.
 _ALL = {
     "C01": dict(
-        want=["T1", "T3", "D1", "D6", "P2", "P3", "K1", "K6"],
+        want=["T1", "T3", "D1", "D6", "P2", "P3", "K1@reduce", "K6@reduce"],
         explanation=("Static analysis of /repo's source. Decides: every row reducer (ScalarFuncs) normalised to a decision "
                      "table over NULL/NZ/ORD atoms equals the hand-written specification of the operation it is dispatched as "
                      "(size, count, sum, mean=sum/count, min, max, first, last); op->kernel->reducer dispatch by constant "
@@ -44,7 +44,7 @@ _ALL = {
         technique="GCNF decision tables vs spec tables; constant-propagated dispatch; fact-walker dominance; path rules",
     ),
     "C02": dict(
-        want=["K1", "K2", "K6", "F1", "P7"],
+        want=["K1@factorize", "K2", "K6@factorize", "F1", "P7"],
         explanation=("Decides the structural part of faithful factorization: the null code -1 is produced for a null in ANY key "
                      "position and preserved by every code re-mapping (K2); every factorization route tests the key for null "
                      "before an ordering comparison decides its code or delegates to a library call documented to emit the "
@@ -67,7 +67,7 @@ _ALL = {
         technique="call-site binding rules, def-use on the completion loop, typestate of the key representation",
     ),
     "C04": dict(
-        want=["T1", "T2", "D2", "D6", "D8", "M1", "M2", "M4", "K1"],
+        want=["T1", "T2", "D2", "D6", "D8", "M1", "M2", "M4", "K1@reduce"],
         explanation=("Decides the monoid contract of the block-wise kernels: reducer decision tables equal their specs (T1); "
                      "algebraic laws on the tables — empty partial is the identity, nulls are skipped, count +1 exactly on "
                      "accepted values, selection reducers return one of their operands, merge classes are closed (T2); both "
@@ -107,7 +107,7 @@ _ALL = {
         technique="taint analysis of index spaces; typestate; path rule",
     ),
     "C08": dict(
-        want=["T1", "U1", "U2", "K1", "K3", "T3", "P1", "P8", "D4"],
+        want=["T1", "U1", "U2", "K1@cumulative", "K3@cumulative", "T3", "P1", "P8", "D4"],
         explanation=("Decides the structure of the per-group prefix reduction: reducer tables (T1, skip and non-skip pairs); "
                      "the running value is read from the output at the group's previous accepted row (U1) and per-group "
                      "bookkeeping is updated only on accepted rows (U2); null keys skipped (K1), masked rows do not interfere "
@@ -117,7 +117,7 @@ _ALL = {
         technique="GCNF tables; loop-body obligations; path pairing rule",
     ),
     "C09": dict(
-        want=["K1", "K3", "K4", "K5", "D3", "P10"],
+        want=["K1@rolling", "K3@rolling", "K4@rolling", "K5", "D3", "P10"],
         explanation=("Decides the periphery of the rolling kernels, not the window arithmetic: null/mask guards (K1, K3); "
                      "counter width (K4); dtype provenance on selection paths so min/max/shift return input elements exactly "
                      "(K5); op -> kernel/flag dispatch and flag -> orientation (D3); restoration keeps the input's time unit (P10)."),
@@ -126,7 +126,7 @@ _ALL = {
         technique="fact walker, path enumeration, dtype-provenance classification, dispatch folding",
     ),
     "C10": dict(
-        want=["K1", "E1", "E2", "A2", "K3"],
+        want=["K1@ema", "E1", "E2", "A2", "K3@ema"],
         explanation=("Decides the periphery of the EMA, not the closed form: null-key guard in the grouped kernels (K1); "
                      "invalid rows read the group's own carried value (E2); the halflife->alpha conversion is the same "
                      "function of the raw parameter in both entry points (E1); the alignment decorator names real "
@@ -168,7 +168,7 @@ _ALL = {
         technique="link check; path rule; table; forwarding rule",
     ),
     "C15": dict(
-        want=["K4", "K1", "A1"],
+        want=["K4@rowsel", "K1@rowsel", "A1"],
         explanation=("Decides the stated failure modes: per-group row counters are wide enough (K4); null-key rows are never "
                      "selected (K1); selection inputs are validated against the keys (A1)."),
         not_decided=["that the scan picks the n-th occurrence (seen[k] == n arithmetic)", "index restoration"],
@@ -214,11 +214,22 @@ _ALL = {
     ),
 }
 
+# named function scopes: a property looks at the instances of a shared rule inside its own anchors
+SCOPES = {
+    "reduce": {"_group_by_reduce"},
+    "factorize": {"_combine_factorizations", "_weight_code_sum", "GroupBy._build_group_sorted_indexer_numba"},
+    "cumulative": {"_cumulative_reduce"},
+    "rolling": {"_rolling_sum_or_mean_1d", "_rolling_max_or_min_1d", "_rolling_shift_or_diff_1d",
+                "min_or_max_and_position", "_apply_rolling"},
+    "ema": {"_ema_grouped", "_ema_grouped_timed"},
+    "rowsel": {"_find_nth", "_find_first_or_last_n"},
+}
+
 PROPERTIES: Dict[str, dict] = {}
 PENDING: Dict[str, list] = {}
 for _pid, _spec in _ALL.items():
-    have = [r for r in _spec["want"] if r in RULES]
-    missing = [r for r in _spec["want"] if r not in RULES]
+    have = [r for r in _spec["want"] if r.partition("@")[0] in RULES]
+    missing = [r for r in _spec["want"] if r.partition("@")[0] not in RULES]
     if missing:
         PENDING[_pid] = missing
     if have:
